@@ -356,7 +356,7 @@ def spec() -> Spec:
         extract=extract,
         nontrivial=nontrivial,
         post=post,
-        budget={"quick": 260, "thorough": 6000},
+        budget={"quick": 220, "thorough": 6000},
         search_budget={"quick": 600, "thorough": 9000},
         divergence_is_violation=True,
         per_case_timeout=60.0,
